@@ -1475,14 +1475,14 @@ B("C15-endianness-mismatch", "C15", "C15:R-C15.1:journal::entry::Entry::encode_i
   """                let item_count = reader.read_u32::<LittleEndian>()?;
                 let seqno = reader.read_u64::<byteorder::BigEndian>()?;""")
 B("C15-length-fields-swapped", "C15", "C15:R-C15.1:journal::entry::Entry::encode_into:kind-Item-length-fields", ENTRY,
-  """                    CompressionType::None => {
-                        debug_assert_eq!(value_len, on_disk_value_len);
-                        Slice::from_reader(reader, on_disk_value_len as usize)?
-                    }""",
-  """                    CompressionType::None => {
-                        debug_assert_eq!(value_len, on_disk_value_len);
-                        Slice::from_reader(reader, value_len as usize)?
-                    }""")
+  """                        Slice::from_reader(reader, on_disk_value_len as usize)?
+                    }
+
+                    #[cfg(feature = "lz4")]""",
+  """                        Slice::from_reader(reader, value_len as usize)?
+                    }
+
+                    #[cfg(feature = "lz4")]""")
 B("C15-clear-field-order", "C15", "C15:R-C15.1:journal::entry::Entry::encode_into:kind-Clear", ENTRY,
   """            Clear { keyspace_id } => {
                 writer.write_u8(Tag::Clear.into())?;
@@ -1765,3 +1765,155 @@ B("C18-factory-not-applied", "C18", "C18:R-C18.2:keyspace::apply_to_base_config"
   "        .with_compaction_filter_factory(our_config.compaction_filter_factory.clone())", "        .with_compaction_filter_factory(None)")
 B("C18-compacts-other-strategy", "C18", "C18:R-C18.3:compaction::worker::run", "src/compaction/worker.rs",
   "    let strategy = keyspace.config.compaction_strategy.clone();", "    let strategy: std::sync::Arc<dyn lsm_tree::compaction::CompactionStrategy + Send + Sync> = std::sync::Arc::new(crate::compaction::Leveled::default());")
+
+# ======================================================================== regressions from seeded mutations / fixed findings
+B("S01-C07-prune-above-watermark", "C07", "C07:R-C07.7", "src/tx/optimistic/oracle.rs",
+  "let safe_to_gc = self.snapshot_tracker.get_seqno_safe_to_gc();", "let safe_to_gc = self.snapshot_tracker.get_seqno_safe_to_gc().max(instant);")
+B("S02-C03-repair-reallocates-tail", "C03", "C03:R-C03.3:journal::batch_reader::JournalBatchReader::truncate_to:repair-leaves", "src/journal/batch_reader.rs",
+  """        file.set_len(last_valid_pos)?;
+        file.sync_all()?;""",
+  """        file.set_len(last_valid_pos)?;
+        file.set_len(crate::journal::writer::PRE_ALLOCATED_BYTES)?;
+        file.sync_all()?;""")
+B("S03-C13-recovered-keyspace-private-flag", "C13", "C13:R-C13.3:keyspace::Keyspace::from_database", KS,
+  """            is_deleted: AtomicBool::default(),
+            is_poisoned: db.is_poisoned.clone(),
+            lock_file: db.lock_file.clone(),""",
+  """            is_deleted: AtomicBool::default(),
+            is_poisoned: PoisonSignal::default(),
+            lock_file: db.lock_file.clone(),""")
+B("F05-C03-decode-debug-assert", "C03", "C03:R-C03.6:journal::entry::Entry::decode_from", "src/journal/entry.rs",
+  """                        if value_len != on_disk_value_len {
+                            return Err(crate::Error::JournalRecovery(
+                                crate::JournalRecoveryError::InsufficientLength,
+                            ));
+                        }
+""",
+  """                        debug_assert_eq!(value_len, on_disk_value_len);
+""")
+B("S04-C02-evict-journal-of-unflushed-keyspace", "C02", "C02:R-C02.6", JMAN,
+  """                    let Some(keyspace_seqno) = item.keyspace.tree.get_highest_persisted_seqno()
+                    else {
+                        return Ok(());
+                    };""",
+  """                    let Some(keyspace_seqno) = item.keyspace.tree.get_highest_persisted_seqno()
+                    else {
+                        continue;
+                    };""")
+B("S05-C09-clear-does-not-mark-buffer-dirty", "C09", "C09:R-C09.7:journal::writer::Writer::write_clear", WRITER,
+  """        seqno: SeqNo,
+    ) -> crate::Result<usize> {
+        self.is_buffer_dirty = true;
+
+        let mut hasher = xxhash_rust::xxh3::Xxh3::default();
+        let mut byte_count = 0;
+
+        self.buf.clear();
+        byte_count += self.write_start(1, seqno)?;
+        self.buf.clear();
+
+        Entry::Clear { keyspace_id }""",
+  """        seqno: SeqNo,
+    ) -> crate::Result<usize> {
+        let mut hasher = xxhash_rust::xxh3::Xxh3::default();
+        let mut byte_count = 0;
+
+        self.buf.clear();
+        byte_count += self.write_start(1, seqno)?;
+        self.buf.clear();
+
+        Entry::Clear { keyspace_id }""")
+B("S06-C12-replay-break-on-deleted-keyspace", "C12", "C12:R-C12.2:db::Database::recover:unknown-id-skips-only-that-record", DB,
+  """                        let Some(keyspace_name) = db.meta_keyspace.resolve_id(item.keyspace_id)?
+                        else {
+                            continue;
+                        };""",
+  """                        let Some(keyspace_name) = db.meta_keyspace.resolve_id(item.keyspace_id)?
+                        else {
+                            break;
+                        };""")
+B("S07-C06-visible-counter-aliases-generator", "C06", "C06:R-C06.4:db::Database::recover", DB,
+  """        let seqno = SequenceNumberCounter::default();
+        let visible_seqno = SequenceNumberCounter::default();
+
+        let meta_tree = lsm_tree::Config::new(
+            config.path.join(KEYSPACES_FOLDER).join("0"),
+            seqno.clone(),
+            visible_seqno.clone(),
+        )
+        .use_cache(config.cache.clone())
+        .use_descriptor_table(config.descriptor_table.clone())
+        .expect_point_read_hits(true)
+        .data_block_size_policy(crate::config::BlockSizePolicy::all(4_096))
+        .data_block_hash_ratio_policy(crate::config::HashRatioPolicy::all(8.0))
+        .data_block_compression_policy(crate::config::CompressionPolicy::disabled())
+        .data_block_restart_interval_policy(crate::config::RestartIntervalPolicy::all(1))
+        .index_block_compression_policy(crate::config::CompressionPolicy::disabled())
+        .filter_policy(crate::config::FilterPolicy::new([
+            lsm_tree::config::FilterPolicyEntry::Bloom(
+                lsm_tree::config::BloomConstructionPolicy::FalsePositiveRate(0.0001),
+            ),
+            lsm_tree::config::FilterPolicyEntry::Bloom(
+                lsm_tree::config::BloomConstructionPolicy::FalsePositiveRate(0.01),
+            ),
+        ]))
+        .open()?;
+
+        let keyspaces = Arc::new(RwLock::default());
+
+        let meta_keyspace = MetaKeyspace::new(
+            meta_tree,
+            keyspaces.clone(),
+            seqno.clone(),
+            visible_seqno.clone(),
+        );
+
+        let supervisor = Supervisor::new(SupervisorInner {
+            db_config: config.clone(),
+            keyspaces,
+            flush_manager: FlushManager::new(),
+            write_buffer_size: WriteBufferManager::default(),
+            snapshot_tracker: SnapshotTracker::new(visible_seqno),
+            journal: active_journal,""",
+  """        let seqno = SequenceNumberCounter::default();
+        let visible_seqno = seqno.clone();
+
+        let meta_tree = lsm_tree::Config::new(
+            config.path.join(KEYSPACES_FOLDER).join("0"),
+            seqno.clone(),
+            visible_seqno.clone(),
+        )
+        .use_cache(config.cache.clone())
+        .use_descriptor_table(config.descriptor_table.clone())
+        .expect_point_read_hits(true)
+        .data_block_size_policy(crate::config::BlockSizePolicy::all(4_096))
+        .data_block_hash_ratio_policy(crate::config::HashRatioPolicy::all(8.0))
+        .data_block_compression_policy(crate::config::CompressionPolicy::disabled())
+        .data_block_restart_interval_policy(crate::config::RestartIntervalPolicy::all(1))
+        .index_block_compression_policy(crate::config::CompressionPolicy::disabled())
+        .filter_policy(crate::config::FilterPolicy::new([
+            lsm_tree::config::FilterPolicyEntry::Bloom(
+                lsm_tree::config::BloomConstructionPolicy::FalsePositiveRate(0.0001),
+            ),
+            lsm_tree::config::FilterPolicyEntry::Bloom(
+                lsm_tree::config::BloomConstructionPolicy::FalsePositiveRate(0.01),
+            ),
+        ]))
+        .open()?;
+
+        let keyspaces = Arc::new(RwLock::default());
+
+        let meta_keyspace = MetaKeyspace::new(
+            meta_tree,
+            keyspaces.clone(),
+            seqno.clone(),
+            visible_seqno.clone(),
+        );
+
+        let supervisor = Supervisor::new(SupervisorInner {
+            db_config: config.clone(),
+            keyspaces,
+            flush_manager: FlushManager::new(),
+            write_buffer_size: WriteBufferManager::default(),
+            snapshot_tracker: SnapshotTracker::new(visible_seqno),
+            journal: active_journal,""")
